@@ -3,6 +3,7 @@ package main
 import (
 	"bytes"
 	"errors"
+	"io"
 	"strings"
 
 	"verif/checks/nbtx"
@@ -18,8 +19,10 @@ import (
 type entry struct {
 	Name string
 	Run  func(data []byte, network bool) error
-	File bool // applicable to the file format (named root)
-	Net  bool // applicable to the network format (nameless root)
+	RunR func(r io.Reader, network bool) error // the same call reading from r (nil: the entry point takes no reader)
+	File bool                                  // applicable to the file format (named root)
+	Net  bool                                  // applicable to the network format (nameless root)
+	Wide bool                                  // member of the typed-destination menu (family E)
 }
 
 // errInvalidString carries the "<Invalid: ...>" text RawMessage.String returns in place of an error.
@@ -58,12 +61,24 @@ func unmarshalInto[T any](name string) entry {
 	}}
 }
 
+func disallow(r io.Reader, network bool) error {
+	d := nbt.NewDecoder(r)
+	d.NetworkFormat(network)
+	d.DisallowUnknownFields()
+	var v wideStruct
+	_, err := d.Decode(&v)
+	return err
+}
+
 func buildEntries() []entry {
 	var out []entry
 	for _, e := range nbtx.Entries() {
 		e := e
 		out = append(out, entry{Name: e.Name, File: true, Net: true, Run: func(data []byte, network bool) error {
 			_, _, err := e.Run(nbtx.Bytes(data), network)
+			return err
+		}, RunR: func(r io.Reader, network bool) error {
+			_, _, err := e.Run(r, network)
 			return err
 		}})
 	}
@@ -107,14 +122,8 @@ func buildEntries() []entry {
 			return m.UnmarshalDisallowUnknownField(&v)
 		}},
 		// Decoder option: DisallowUnknownFields
-		entry{Name: "struct-typed-disallow", File: true, Net: true, Run: func(data []byte, network bool) error {
-			d := nbt.NewDecoder(bytes.NewReader(data))
-			d.NetworkFormat(network)
-			d.DisallowUnknownFields()
-			var v wideStruct
-			_, err := d.Decode(&v)
-			return err
-		}},
+		entry{Name: "struct-typed-disallow", File: true, Net: true, RunR: disallow,
+			Run: func(data []byte, network bool) error { return disallow(bytes.NewReader(data), network) }},
 	)
-	return out
+	return append(out, wideEntries()...)
 }
